@@ -356,6 +356,9 @@ def run(ctx):
         for r in res: ctx.add_result(r)
         ctx.functions.update(funcs)
     structs.adz_apply_obligations(ctx, 'C02')
+    # premise: instantiation (Quantified.unquantify / substitute) replaces exactly the occurrences of the bound variable (C15)
+    from checks import c15 as _c15
+    ctx.restate(_c15.run, 'C15.', 'C02.subst.', keep=lambda n: 'substitute' in n or 'unquantify' in n or 'rshift' in n)
     selection.rule_target_obligations(ctx, 'C02')
     selection.next_obligations(ctx, 'C02')
     from checks import helpers_ob
